@@ -93,8 +93,8 @@ def library_panic(v, txt, where):
         return False
     tail = txt[m.start():]
     frames = re.findall(r"^\t(/\S+\.go):\d+", tail, re.M)
-    own = [f for f in frames if "/runtime/" not in f and "/testing/" not in f and "/src/sync/" not in f]
-    if own and "zz_verif" not in own[0] and own[0].startswith(os.path.realpath(vlib.REPO)):
+    own = [f for f in frames if f.startswith(os.path.realpath(vlib.REPO))]      # frames of the repository (library or driver), innermost first
+    if own and "zz_verif" not in own[0]:
         v.fail("runtime-panic:" + os.path.basename(own[0]), {"what": m.group(0), "where": where, "stack": tail[:2500]})
         return True
     return False
